@@ -54,6 +54,7 @@ FAULT_PROFILE = {
     "stop_on_error": True,
     "wl_kwargs": 0.1,
     "split_bias": 0.3,
+    "distinct_positions": True,
 }
 PREFIX_PROFILE = {
     "ops": {"aspirate": 2, "dispense": 2, "transfer": 6, "distribute": 2, "evo_aspirate": 1, "evo_dispense": 1, "comment": 1, "wash": 1, "commit": 1},
@@ -63,6 +64,7 @@ PREFIX_PROFILE = {
     "stop_on_error": True,
     "wl_kwargs": 0.1,
     "split_bias": 0.3,
+    "distinct_positions": True,
 }
 
 
@@ -75,7 +77,8 @@ class FaultEngine(hist.Engine):
     def gen_op(self):
         i = len(self.trace)
         if i < self.n_prefix:
-            self.profile = PREFIX_PROFILE
+            # (without auto_split the successful prefix must not ask for volumes above max_volume)
+            self.profile = PREFIX_PROFILE if self.case["worklist"].get("auto_split", True) else dict(PREFIX_PROFILE, split_bias=0.0)
             kind = hist._weighted(self.rng, self.profile["ops"])
             if kind in ("comment", "wash", "commit"):
                 return {"op": kind, "text": "prefix µ"} if kind == "comment" else {"op": kind}
